@@ -73,8 +73,8 @@ package genql
 //@ func AsType[*]
 //@   safety[C18]
 //@   ensures nil[C18]: value == nil ==> result == nil && err == nil
-//@   ensures val[C18]: value != nil && typeis(value, T) ==> err == nil && result != nil && fresh(result) && *result == value.(T)
-//@   ensures ptr[C18]: typeis(value, *T) && !typeis(value, T) ==> err == nil && result == value.(*T)
+//@   ensures val[C18,C14,C12]: value != nil && typeis(value, T) ==> err == nil && result != nil && fresh(result) && *result == value.(T)
+//@   ensures ptr[C18,C14,C12]: typeis(value, *T) && !typeis(value, T) ==> err == nil && result == value.(*T)
 //@   ensures bad[C18]: value != nil && !typeis(value, T) && !typeis(value, *T) ==> err != nil
 //@   modifies nothing
 
@@ -788,10 +788,10 @@ package genql
 
 // C02: a numeric literal means what strconv.ParseFloat reads in its text (decimal; no octal, no hex), a string literal its text
 //@ func LiteralExpr
-//@   ensures number[C02]: err == nil && (callresult(BuildLiteral, 0) == sqlparser.IntVal || callresult(BuildLiteral, 0) == sqlparser.FloatVal || callresult(BuildLiteral, 0) == sqlparser.DecimalVal) ==>
+//@   ensures number[C02,C16]: err == nil && (callresult(BuildLiteral, 0) == sqlparser.IntVal || callresult(BuildLiteral, 0) == sqlparser.FloatVal || callresult(BuildLiteral, 0) == sqlparser.DecimalVal) ==>
 //@     | called(ParseFloat) && result == any(callresult(ParseFloat, 0))
-//@   ensures text[C02]: err == nil && callresult(BuildLiteral, 0) == sqlparser.StrVal ==> result == any(NeutalString(callresult(BuildLiteral, 1)))
-//@   at-call ParseFloat assert whole-text-as-a-double[C02]: arg0 == callresult(BuildLiteral, 1) && arg1 == 64
+//@   ensures text[C02,C16]: err == nil && callresult(BuildLiteral, 0) == sqlparser.StrVal ==> result == any(NeutalString(callresult(BuildLiteral, 1)))
+//@   at-call ParseFloat assert whole-text-as-a-double[C02,C16]: arg0 == callresult(BuildLiteral, 1) && arg1 == 64
 
 // ---------------------------------------------------------------------------
 // C04: joins. The hash path answers ON only when ON is a conjunction of equalities; the nested-loop path emits a pair
@@ -1028,3 +1028,27 @@ package genql
 //@ func groupObject
 //@   requires depth-within-every-column: depth >= 0
 //@   ensures an-object-of-its-own[C03,C11,C12]: fresh(result)
+
+// ---------------------------------------------------------------------------
+// clauses added after the eighth batch of seeded changes
+
+// C08/C14: the nested-array arm of exec counts the goroutine that waits for the copy before it starts it
+//@ func (*Query).exec
+//@   locks[C08]
+//@   at-call Add assert the-forwarder-is-counted-by-the-query-that-waits-for-it[C08,C14]: arg0 == &query.wg && arg1 == 1
+
+// C03/C18: aggregates read a member through its printed form (named number types and json.Number print as numbers)
+//@ func ToFloat64
+//@   at-call Sprintf assert the-value-is-printed[C03,C18]: arg0 == "%v" && varargs == 1 && vararg0 == any
+//@   at-call ParseFloat assert the-printed-form-is-read-as-a-double[C03,C18]: arg0 == callresult(Sprintf, 0) && arg1 == 64
+
+// C18/C14/C20: a function is handed the values of its arguments as ValueOf resolved them, in order, nothing converted
+//@ func FuncArgReader
+//@   at-call append@loop0 assert an-argument-is-the-value-of-its-expression[C18,C14,C20,C02]: called(ValueOf) && appended == callresult(ValueOf, 0)
+//@   loop 0 exhaustive every-argument-is-read[C18,C20]: selectExprs
+
+// C20/C02/C07: an object used as a table is a table of one row, the object itself - also the empty and the nil object
+// (FROM dual evaluates the select list once whatever the document is)
+//@ func AsArray
+//@   ensures an-array-is-its-own-rows[C02,C07,C20]: typeis(data, []any) ==> err == nil && result == data.([]any)
+//@   ensures an-object-is-one-row[C02,C07,C20]: typeis(data, Map) ==> err == nil && len(result) == 1 && result[0] == data
